@@ -25,7 +25,21 @@ def eval_flag_condition(cond, val):
         return all(eval_flag_condition(c, val) for c in cond.children)
     if isinstance(cond, LogicalOr):
         return any(eval_flag_condition(c, val) for c in cond.children)
+    if isinstance(cond, Comparison):
+        # numeric operands: variables valued by val (possibly NaN) or constants; Python/IEEE semantics
+        import operator
+        a, b = _num_operand(cond.left, val), _num_operand(cond.right, val)
+        return {"<": operator.lt, "<=": operator.le, ">": operator.gt, ">=": operator.ge,
+                "==": operator.eq, "!=": operator.ne}[cond.operator](a, b)
     raise WalkError("unsupported flag condition %r" % (cond,))
+
+
+def _num_operand(e, val):
+    if isinstance(e, Variable):
+        return float(val[e.name])
+    if isinstance(e, (int, float)) and not isinstance(e, bool):
+        return float(e)
+    raise WalkError("unsupported comparison operand %r" % (e,))
 
 
 def flags_of(cond, acc=None):
